@@ -20,6 +20,7 @@
 import O2P.Basic
 import O2P.Model.Base64
 import O2P.Model.Signed
+import O2P.Model.ClientIP
 
 namespace O2P.Go
 
@@ -32,15 +33,26 @@ structure Ext where
   sha : Str → Str              -- SHA-256
   nowNs : Int                  -- `time.Now()` in ns since the Unix epoch (one read per call)
   splitHostPortStd : Str → Option (Str × Str)   -- `net.SplitHostPort` (host, port) or error
+  parseIP : Str → Option (BitVec 128)           -- `net.ParseIP` (nil ↦ none; a non-nil result has 16 bytes)
   regexMatch : Str → Str → Bool                 -- `regexp.MustCompile(pattern).MatchString(s)`
   urlParse : Str → Option (Str × Str × Str)     -- `url.Parse`: (Hostname(), Port(), Path) or error
   urlParseRequestURI : Str → Option (Str × Str × Str)  -- `url.ParseRequestURI`, likewise
+
+/-- an `Ext` that answers nothing (examples and searches override the fields they need) -/
+def Ext.trivial : Ext :=
+  { mac := fun _ _ => [], sha := fun _ => [], nowNs := 0, splitHostPortStd := fun _ => none, parseIP := fun _ => none,
+    regexMatch := fun _ _ => false, urlParse := fun _ => none, urlParseRequestURI := fun _ => none }
 
 /-- `http.Cookie` as far as the translated functions read it -/
 structure Cookie where
   Name : Str
   Value : Str
   deriving DecidableEq
+
+abbrev IP := BitVec 128
+
+/-- `strings.TrimSpace` -/
+def stringsTrimSpace (s : Str) : Str := trimSpace s
 
 /-- the request scope (`middlewareapi.RequestScope`) as far as the translated functions read it -/
 structure Scope where
@@ -55,6 +67,7 @@ structure Req where
   requestURI : Str             -- `req.URL.RequestURI()`
   scope : Option Scope         -- `middlewareapi.GetRequestScope(req)` (nil when no scope middleware ran)
   method : Str := []           -- `req.Method`
+  remoteAddr : Str := []       -- `req.RemoteAddr`
 
 /-- reading a field through a pointer: nil is a panic -/
 def derefScope (s : Option Scope) : M Scope :=
